@@ -637,7 +637,7 @@ def check_c12(pid, tier, seed, replay=None):
       extra_cov=dict(callback_counts=counts, fault_kinds=FAULT_KINDS))
 
 # ---------------------------------------------------------------- C03 damaged physical streams
-DAMAGE_KINDS = ['garbage','oggs','drop','dup','dupbos','swap','trunc','setgp','gphuge','cleareos','seteos','setbos','setserial','flip','flipfix','zero']
+DAMAGE_KINDS = ['garbage','oggs','drop','dup','dupbos','setcont','clearcont','setseq','swap','trunc','setgp','gphuge','cleareos','seteos','setbos','setserial','flip','flipfix','zero']
 
 def damage_lines(rng, fkey, npages_guess, n):
     out = []
@@ -649,6 +649,7 @@ def damage_lines(rng, fkey, npages_guess, n):
         elif k == 'setgp': b = rng.choice([-1,0,1,5,100000,2**31-1,-5,-2**31])
         elif k == 'gphuge': b = rng.choice([0,1,255])
         elif k == 'setserial': b = rng.choice([0,1000,1001,1002,77,5,-1])
+        elif k == 'setseq': b = rng.choice([0,1,2,5,1000,2147483647,-1])
         elif k in ('flip','flipfix'): b = rng.choice([0,4,5,6,14,18,22,26,27,28,30,60,200])
         elif k == 'zero': b = rng.choice([0,8,100])
         else: b = 0
@@ -696,16 +697,21 @@ def check_c03(pid, tier, seed, replay=None):
     # lying granule positions on streams larger than one probe step: the final position negative / zero / tiny / huge (a link of computed length 0 or less
     # than its first position), or a page in the middle claiming a position far outside the link; then every kind of seek to 0, to the end and into the middle
     k = 0
-    for f in ('H', 'Q', 'ZA', 'ZE', 'F'):
-        for page, val in ((9999, -2147483648), (9999, 0), (9999, 1), (9999, 2147483647), (5, 2147483647), (5, -5), (3, 100000), (9998, 0)):
-            if quick and (k + seed) % 3: k += 1; continue
+    lies = [('setgp', 9999, -2147483648), ('setgp', 9999, 0), ('setgp', 9999, 1), ('setgp', 9999, 2147483647), ('setgp', 5, 2147483647), ('setgp', 5, -5), ('setgp', 3, 100000), ('setgp', 9998, 0)]
+    # ... and the other fields a page carries about itself: flags, serial number, sequence number, at the structural places of the file
+    lies += [(kind, page, val) for kind, val in (('setcont', 0), ('clearcont', 0), ('seteos', 0), ('cleareos', 0), ('setbos', 0), ('setseq', 0), ('setseq', 2147483647), ('setserial', 77), ('drop', 0), ('dup', 0), ('gphuge', 0))
+             for page in (2, 3, 4, 5, 9998, 9999)]
+    for f in ('H', 'Q', 'ZA', 'ZE', 'F', 'ZC', 'ZF'):
+        for kind, page, val in lies:
+            if quick and (k * 5 + seed) % (3 if kind == 'setgp' else 17): k += 1; continue
             key = f'ZG{k}'; C.FILES[key] = C.FILES[f]; k += 1
-            ls = [f'open 0 {fid(key)} seek', 'q 0']
+            mode = ('seek', 'seek', 'seek', 'stream', 'test')[k % 5]
+            ls = [f'open 0 {fid(key)} {mode}', 'q 0']
             for t in ('0', 'e:0', 'e:-1', 'f:0:1:2:0', '1'):
                 for op in ('ps', 'psp', 'psl'): ls += [f'{op} 0 {t}', 'rf 0 64']
-            ls += ['ts 0 0 0 0', 'tsp 0 0 100 0', 'rs 0 oe:-1', 'rf 0 4096', 'clear 0', 'clear 0']
-            s = Scenario(f'gplie-{f}-{page}-{val}', [key], ls, 'lying-granule-positions', budget=30, tags=('damaged',))
-            s.pre = [f'dmg {fid(key)} setgp {page} {val}'] + ([f'dmg {fid(key)} drop {rng.randrange(3, 12)} 0'] if k % 2 else [])
+            ls += ['ts 0 0 0 0', 'tsp 0 0 100 0', 'rs 0 oe:-1', 'rf 0 4096', 'rfn 0 100000 -1', 'hr 0 1', 'ps 0 1', 'rf 0 64', 'clear 0', 'clear 0']
+            s = Scenario(f'gplie-{f}-{kind}-{page}-{val}-{mode}', [key], ls, 'lying-page-fields', budget=30, tags=('damaged',))
+            s.pre = [f'dmg {fid(key)} {kind} {page} {val}'] + ([f'dmg {fid(key)} drop {rng.randrange(3, 12)} 0'] if k % 2 else [])
             scs.append(s)
     # undamaged chains (odd link lengths, 0/1-sample links, extreme serial numbers) under the same random call mix with half rate switched on early:
     # termination and memory safety must not depend on the stream being damaged
@@ -715,7 +721,14 @@ def check_c03(pid, tier, seed, replay=None):
         s.tags.discard('damaged'); s.family = 'intact-halfrate'
         s.lines.insert(2, 'hr 0 1')
         scs.append(s)
-    res = run_batch(pid, tier, scs, bindir, nproc=16)
+    # two batches: a script holds at most 500 files
+    lie = [x for x in scs if x.family == 'lying-page-fields']; rest = [x for x in scs if x.family != 'lying-page-fields']
+    res = run_batch(pid, tier, rest, bindir, nproc=16)
+    if lie:
+        r2 = run_batch(pid + 'g', tier, lie, bindir, nproc=16)
+        for k2 in ('events', 'states', 'transitions', 'traces', 'harness_s', 'tlc_s'): res[k2] += r2[k2]
+        for k2 in ('viols', 'infra'): res[k2] += r2[k2]
+        res['scn_events'].update(r2['scn_events'])
     rules = SAFETY_RULES | {'ReadUndocumentedCode','SeekUndocumentedCode','OpenUndocumentedCode','HalfRateUndocumentedCode','CrosslapUndocumentedCode',
                             'FailedOpenLeavesHandleCleared','FailedOpenMustNotClose','OpenMustNotClose','NoCloseBehindCaller','ClearReturnsZero','ClearZeroesHandle',
                             'CloseRunsExactlyOnceAtClear','CloseOnlyForOpenedHandles','ReadAtMostLen','WritesInsideBuffer','ClearReleasesEverything'}
